@@ -24,6 +24,10 @@ pub struct Next {
     pub n: i64,
     pub inner: String,
     pub fin: bool,
+    /// the call after this one is the last: an exactly sized stream knows (size_hint upper bound 0)
+    pub tail: bool,
+    /// a sink whose close completes with an error
+    pub err: bool,
     pub rc: *const RunCtx,
 }
 unsafe impl Send for Next {}
@@ -34,8 +38,12 @@ pub struct Slot(Arc<Mutex<Option<Next>>>);
 impl Slot {
     /// Runs the scripted inner actions; returns whether the inner completes now.
     fn run(&self) -> bool {
+        self.run2().0
+    }
+    /// (completes now, tail, err)
+    fn run2(&self) -> (bool, bool, bool) {
         let Some(nx) = self.0.lock().unwrap().take() else {
-            return false;
+            return (false, false, false);
         };
         let rc = unsafe { &*nx.rc };
         let mut actor = Actor { t: nx.t };
@@ -53,7 +61,7 @@ impl Slot {
             _ => {}
         }
         emit(json!({"ev":"call","t":nx.t,"op":"pollend","f":crate::ops::sname(nx.f),"fin":nx.fin,"m":crate::rt::mono_us(),"w":crate::rt::wall_us()}));
-        nx.fin
+        (nx.fin, nx.tail, nx.err)
     }
 }
 
@@ -69,11 +77,13 @@ impl Future for SFut {
     }
 }
 
-pub struct SStream(Slot, bool);
+pub struct SStream(Slot, bool, bool);
 impl Stream for SStream {
     type Item = u32;
     fn poll_next(mut self: Pin<&mut Self>, _cx: &mut Context<'_>) -> Poll<Option<u32>> {
-        if self.0.run() {
+        let (fin, tail, _) = self.0.run2();
+        self.2 = tail || fin;
+        if fin {
             Poll::Ready(None)
         } else {
             // alternate between yielding an item and pending
@@ -84,6 +94,20 @@ impl Stream for SStream {
                 Poll::Pending
             }
         }
+    }
+    fn size_hint(&self) -> (usize, Option<usize>) {
+        // an exactly sized stream (stream::iter, once): after its last item nothing more will come
+        if self.exhausted() {
+            (0, Some(0))
+        } else {
+            (0, None)
+        }
+    }
+}
+
+impl SStream {
+    fn exhausted(&self) -> bool {
+        self.2
     }
 }
 
@@ -103,8 +127,9 @@ impl Sink<u32> for SSink {
         Poll::Pending
     }
     fn poll_close(self: Pin<&mut Self>, _cx: &mut Context<'_>) -> Poll<Result<(), ()>> {
-        if self.0.run() {
-            Poll::Ready(Ok(()))
+        let (fin, _, err) = self.0.run2();
+        if fin {
+            Poll::Ready(if err { Err(()) } else { Ok(()) })
         } else {
             Poll::Pending
         }
@@ -138,7 +163,7 @@ impl Adapter {
         let slot = Slot::default();
         let span = span.unwrap_or_else(Span::noop);
         let kind = match kind {
-            "str" => Kind::Str(Box::pin(SStream(slot.clone(), false).in_span(span))),
+            "str" => Kind::Str(Box::pin(SStream(slot.clone(), false, false).in_span(span))),
             "snk" => Kind::Snk(Box::pin(SSink(slot.clone()).in_span(span))),
             "eop" => Kind::Eop(Box::pin(SFut(slot.clone()))),
             _ => Kind::Fut(Box::pin(SFut(slot.clone()).in_span(span))),
@@ -147,8 +172,9 @@ impl Adapter {
     }
 
     /// One call on the adapter; returns whether it reported completion.
-    pub fn poll(&mut self, rc: &RunCtx, t: usize, f: i64, g: i64, inner: &str, fin: bool) -> bool {
-        *self.slot.0.lock().unwrap() = Some(Next { t, f, n: g + 1, inner: inner.to_string(), fin, rc: rc as *const RunCtx });
+    pub fn poll(&mut self, rc: &RunCtx, t: usize, f: i64, g: i64, inner: &str, fin: bool, tail: bool) -> bool {
+        let err = rc.variant(f, 2) == 1;
+        *self.slot.0.lock().unwrap() = Some(Next { t, f, n: g + 1, inner: inner.to_string(), fin, tail, err, rc: rc as *const RunCtx });
         let waker = noop_waker();
         let mut cx = Context::from_waker(&waker);
         self.calls += 1;
